@@ -84,11 +84,28 @@ static int rt_lssb(uint64_t c)
 	return r;
 }
 
+/* the argument as an unparenthesised expression of lower precedence than the operators the macros apply */
+static int rt_pop_expr(uint64_t c)
+{
+	volatile uint64_t a = c & 0xffffffff00000000ull, b = c & 0x00000000ffffffffull;
+	return const_pop(a | b);
+}
+static int rt_lssb_expr(uint64_t c)
+{
+	volatile uint64_t a = c, z = 0;
+	int r = const_lssb(a ^ z);
+	return r;
+}
+
 static void check_macro_rt(uint64_t c)
 {
 	int want_pop = __builtin_popcountll(c);
 	int want_lssb = c ? __builtin_ctzll(c) : -1;
 	int p = rt_pop(c), l = rt_lssb(c);
+	if (rt_pop_expr(c) != want_pop)
+		bad("const_pop(expression-argument)", c, rt_pop_expr(c), want_pop);
+	if (rt_lssb_expr(c) != want_lssb)
+		bad("const_lssb(expression-argument)", c, rt_lssb_expr(c), want_lssb);
 	vh_evaluations++;
 	if (p != want_pop)
 		bad("const_pop(run-time)", c, p, want_pop);
